@@ -1,7 +1,9 @@
 #!/bin/bash
 # usage: ./run.sh <Cxx> quick|thorough|replay [path]
 # Rebuilds the check's driver from /repo's *current working tree* (hooks on: -tags verif),
-# then runs it.  Exit 0 held / 1 VIOLATION / 2 INCONCLUSIVE.
+# then runs it.  Exit 0 held / 1 VIOLATION / 2 INCONCLUSIVE / 3 build failure.
+# VERIF_REPO=<dir> (development only) builds against another checkout of aergo (scratch worktree
+# carrying a seeded change) instead of /repo; registered commands never set it.
 set -u
 cd /verif
 . /verif/env.sh
@@ -11,7 +13,17 @@ lc=$(echo "$id" | tr 'A-Z' 'a-z')
 mkdir -p /verif/bin /verif/evidence
 race=""
 if [ -f "/verif/h/cmd/$lc/RACE" ]; then race="-race"; fi
-( cd /verif/h && go build $race -tags verif -o "/verif/bin/$lc" "./cmd/$lc" ) || { echo "BUILD-FAILED $id"; exit 3; }
+repo="${VERIF_REPO:-/repo}"
+export VERIF_REPO="$repo"
+out="/verif/bin/$lc"
+modflag=""
+if [ "$repo" != "/repo" ]; then
+  tag=$(echo "$repo" | tr -c 'A-Za-z0-9\n' '_')
+  md="/verif/bin/mod$tag"; mkdir -p "$md"
+  sed "s#=> /repo#=> $repo#" /verif/h/go.mod > "$md/go.mod"; cp /verif/h/go.sum "$md/go.sum"
+  modflag="-modfile=$md/go.mod"; out="/verif/bin/$lc$tag"
+fi
+( cd /verif/h && go build $race $modflag -tags verif -o "$out" "./cmd/$lc" ) || { echo "BUILD-FAILED $id"; exit 3; }
 # children (node rigs) are the same binary re-executed; tell them where it is
-export VERIF_SELF="/verif/bin/$lc"
-exec "/verif/bin/$lc" "$@"
+export VERIF_SELF="$out"
+exec "$out" "$@"
